@@ -27,7 +27,7 @@ def main(argv):
     rep = common.Report(prop, tier, seed)
     common.WORK.mkdir(exist_ok=True)
     try:
-        proof = common.static_obligations(rep, prop)
+        proof = common.static_obligations(rep, prop, tier)
         common.fresh_cwd(prop)
         mod.run(rep, tier, seed)
     except common.Broken as e:
